@@ -53,7 +53,7 @@ SIM_CHECKS = [
     ("C17", "model_checking", "Trace_Discovery.tla gives, for every observation of get_discovered_participants, the participants that must and must not be known: same domain id and tag, not ignored, lease window [last communication + lease, + one worker period] for silent participants, rediscovery after heal. Scenario families (isolation by domain/tag, lease expiry with virtual time, rediscovery, ignore, announcement loss) run on real participants in the simulation and are validated event by event by TLC.", "5.3, 6 C17"),
     ("C30", "model_checking", "Trace_Worker.tla computes, from the recorded write / reception times, the number of full deadline periods that elapsed per instance (Missed) and accepts an observed offered/requested deadline-missed total_count only inside [count one worker period earlier, count now]; every listener callback must carry total_count = k and total_count_change = 1 and be justified by a missed period; at the end every missed period must have been signalled. Timing patterns (gaps of 0.3..3.7 periods, 1-2 instances, deadlines 20 ms..1 s, simultaneous writes) run on the real worker with the virtual clock.", "5.5, 6 C30"),
     ("C31", "model_checking", "Every duration the worker passes to Timer::delay is recorded by the simulated timer and Trace_Worker.tla requires 0 <= d <= 50 ms on each of them, in scenario families that make each time_until_* term the minimum, including already overdue ones (deadlines shorter than the worker period, lifespans, blocked writes released by a lease expiry long after the lifespan of the blocked sample, lease expiry, announcements), also with a virtual clock that moves between two reads inside one worker iteration (clock-drift family: 0.7 / 100 / 300 us per read); Timeout of a blocked write within max_blocking_time + one period is judged by Trace_Rtps (C27 family).", "5.5, 6 C31"),
-    ("C06", "model_checking", "Adversary.tla describes the datagrams an adversary can send: every RTPS submessage kind (DATA, DATA_FRAG, HEARTBEAT, HEARTBEAT_FRAG, GAP, ACKNACK, NACK_FRAG, INFO_TS/DST/SRC/REPLY/REPLY_IP4, PAD, unknown, vendor specific) with each field ranging over its default and boundary alternatives (sequence numbers 0, -1, 2^32, 2^63-1, -2^63; bitmap sizes up to 2^32-1 with missing/surplus words; fragment numbers/sizes 0, 65535, 2^32-1; lengths zero/short/beyond the datagram/odd; payloads and parameter lists empty, truncated, unterminated, with huge collection lengths, spoofed GUIDs), source prefix known/unknown/victim/zero, user and built-in (SPDP, SEDP, liveliness, type lookup) target endpoints, header and truncation variants, INFO_* prefixes. TLC enumerates all messages with at most two fields off their default (7 760); the harness encodes each byte by byte (own encoder) and injects it into a victim participant with live reliable endpoints in both directions inside the simulation; Inject must be a stuttering step for well behaved peers: no panic, no hang (wall-clock watchdog), heap growth <= 100 x datagram length + 4 MB (counting allocator), and afterwards a fresh participant must discover, match and exchange a sample in each direction with the victim; traces are validated by TLC against Trace_Adversary.tla. Quick: all single-field variants, header/truncation/prefix variants and a seeded quarter of the two-field variants; thorough: all.", "6 C06"),
+    ("C06", "model_checking", "Adversary.tla describes the datagrams an adversary can send: every RTPS submessage kind (DATA, DATA_FRAG, HEARTBEAT, HEARTBEAT_FRAG, GAP, ACKNACK, NACK_FRAG, INFO_TS/DST/SRC/REPLY/REPLY_IP4, PAD, unknown, vendor specific) with each field ranging over its default and boundary alternatives (sequence numbers 0, -1, 2^32, 2^63-1, -2^63; bitmap sizes up to 2^32-1 with missing/surplus words; fragment numbers/sizes 0, 65535, 2^32-1; lengths zero/short/beyond the datagram/odd; payloads and parameter lists empty, truncated, unterminated, with huge collection lengths, spoofed GUIDs), source prefix known/unknown/victim/zero, user and built-in (SPDP, SEDP, liveliness, type lookup) target endpoints, header and truncation variants, INFO_* prefixes, pairs of DATA_FRAG submessages that disagree, HEARTBEAT / GAP / DATA behind a partial fragment, and a GAP that leaves a hole behind the next expected change followed by a HEARTBEAT (the ACKNACK then describes a non-contiguous missing set up to the 256-bit limit). TLC enumerates all messages with at most two fields off their default (7 760); the harness encodes each byte by byte (own encoder) and injects it into a victim participant with live reliable endpoints in both directions inside the simulation; Inject must be a stuttering step for well behaved peers: no panic, no hang (wall-clock watchdog), heap growth <= 100 x datagram length + 4 MB (counting allocator), and afterwards a fresh participant must discover, match and exchange a sample in each direction with the victim; traces are validated by TLC against Trace_Adversary.tla. Quick: all single-field variants, header/truncation/prefix variants and a seeded quarter of the two-field variants; thorough: all.", "6 C06"),
     ("C26", "model_checking", "Trace_Filter.tla: a writer publishes samples of the related topic; on another participant a reader on a content filtered topic (member = %0 or member <= %0 on an INT32 key, an INT32 member or a STRING member, several spellings of the expression) and a control reader on the related topic take samples; in every second scenario a second filtered reader of the same subscriber with the same expression and another parameter takes samples too and is judged by its own filter. Rules: every presented sample was written, is unchanged, passes the filter and is presented once; at the end every passing sample the related topic delivered was presented by the filtered reader. Scenario families: bursts, gaps, seeded loss/duplication/reordering, TRANSIENT_LOCAL late joiners and 'batched' (the simulated network merges the held datagrams of the writer into one RTPS message with several DATA submessages, as a batching peer would send them); traces validated event by event by TLC.", "6 C26"),
     ("C27", "model_checking", sim_text("Decides that a reliable KEEP_LAST write evicts only acknowledged samples, blocks otherwise and times out within max_blocking_time + one worker period."), "5.1, 6 C27"),
     ("C29", "model_checking", sim_text("Decides that no DATA/DATA_FRAG of a sample is emitted after source timestamp + lifespan (first transmission, repair, history)."), "5.1, 6 C29"),
@@ -95,7 +95,7 @@ OTHER_CHECKS = [
      "6 C14", "Trusted: TLC, Apalache/z3, the harness' case evaluation (harness/src/timeconv.rs). The limb definition (TLC) and the integer definition (Apalache) are linked through the implementation, not by a proof. Seconds are sampled at boundary values (they are copied by the conversions).",
      "explicit TLA+ spec; TLC-evaluated cases and an exhaustive nanosecond sweep compared with the code; Apalache proof of the round trip and of monotonicity over the unbounded domain"),
     ("C42", "model_checking",
-     "StdTimer.tla models std_runtime/timer.rs step by step (Sleep poll: Ready iff now > deadline, every pending poll sends Wake(id, deadline); drop sends Cancel; the timer thread wakes every elapsed heap entry, then receives ONE message waiting at most until the next deadline) with a tick counter; TLC checks NeverEarly, NoEarlyWake, NoLostWakeup (the wake-up token of a pending sleep is always on the heap or in the queue) and NoWakeAfterCancel on all interleavings of 2 sleeps with spurious polls (272 k states); the unconditional 'a dropped sleep never wakes its task' (NoWakeAfterDrop) is shown NOT to hold for this design (must-fail configuration: a Cancel queued just before the deadline loses against the elapsed-entry sweep), so the implementation is judged with a 300 ms margin. Binding: the real TimerDriver / block_on / block_timeout run under 8-16 concurrent threads; per sleep the harness records poll / ready / drop / wake-up times of one monotonic clock (it re-polls only when woken, so a lost wake-up shows up) and TLC validates the trace against Trace_Timer.tla: never Ready before the deadline, every kept sleep completes, a sleep dropped well before its deadline never wakes its task, block_on returns the output, block_timeout returns Timeout never before the duration and not when the future completed a second earlier.",
+     "StdTimer.tla models std_runtime/timer.rs step by step (Sleep poll: Ready iff now > deadline, every pending poll sends Wake(id, deadline); drop sends Cancel; the timer thread wakes every elapsed heap entry, then receives ONE message waiting at most until the next deadline) with a tick counter; TLC checks NeverEarly, NoEarlyWake, NoLostWakeup (the wake-up token of a pending sleep is always on the heap or in the queue) and NoWakeAfterCancel on all interleavings of 2 sleeps with spurious polls (272 k states); the unconditional 'a dropped sleep never wakes its task' (NoWakeAfterDrop) is shown NOT to hold for this design (must-fail configuration: a Cancel queued just before the deadline loses against the elapsed-entry sweep), so the implementation is judged with a 300 ms margin. Binding: the real TimerDriver / block_on / block_timeout (on futures that are chains of one to five sleeps, i.e. woken several times before completing) run under 8-16 concurrent threads; per sleep the harness records poll / ready / drop / wake-up times of one monotonic clock (it re-polls only when woken, so a lost wake-up shows up) and TLC validates the trace against Trace_Timer.tla: never Ready before the deadline, every kept sleep completes, a sleep dropped well before its deadline never wakes its task, block_on returns the output, block_timeout returns Timeout never before the duration and not when the future completed a second earlier.",
      "5.12, 6 C42", "Real-time behaviour: a recorded violation is re-examined by repeating the stress run, not replayed exactly. Liveness bounds are generous (5 s) to stay quiet on a loaded machine (checked with 48 busy loops on 16 cores). The executor's spawn/join are covered only indirectly.",
      "explicit TLA+ spec + TLC (exhaustive interleavings of the timer thread and sleepers); wall-clock traces of the real timer under concurrent stress validated by TLC against the trace specification"),
     ("C28", "model_checking",
